@@ -3,6 +3,7 @@ package rules
 import (
 	"fmt"
 	"go/ast"
+	"go/constant"
 	"go/token"
 	"go/types"
 	"regexp/syntax"
@@ -55,12 +56,102 @@ func isParsecCall(info *types.Info, call *ast.CallExpr, name string) bool {
 	return false
 }
 
+// atomWrapperDecls: function declarations of the loaded packages, by object
+// (filled by the first rule that needs it: see atomLit).
+var atomWrapperDecls map[types.Object]*ast.FuncDecl
+
+// SetAtomWrapperDecls records the declarations atomLit may look into.
+func setAtomWrapperDecls(c *core.Ctx) {
+	atomWrapperDecls = map[types.Object]*ast.FuncDecl{}
+	for _, rel := range []string{"meta/signature", "meta/idl"} {
+		p := c.Pkg(rel)
+		if p == nil {
+			continue
+		}
+		for _, f := range p.Syntax {
+			for _, d := range f.Decls {
+				if fd, ok := d.(*ast.FuncDecl); ok && fd.Body != nil {
+					atomWrapperDecls[p.TypesInfo.Defs[fd.Name]] = fd
+				}
+			}
+		}
+	}
+}
+
+// atomLit: call is parsec.Atom(lit, name) — or a call of a small function or
+// method of the repository that does nothing but return parsec.Atom of its
+// receiver or of one of its parameters (sigUint32.atom("uint32"), with sigUint32
+// a typed string constant): the literal matched, and true.
+func atomLit(info *types.Info, call *ast.CallExpr) (string, bool) {
+	if (isParsecCall(info, call, "Atom") || isParsecCall(info, call, "AtomExact")) && len(call.Args) >= 1 {
+		return stringLit(info, call.Args[0]), true
+	}
+	var callee types.Object
+	var recvExpr ast.Expr
+	switch fun := call.Fun.(type) {
+	case *ast.Ident:
+		callee = info.Uses[fun]
+	case *ast.SelectorExpr:
+		callee = info.Uses[fun.Sel]
+		recvExpr = fun.X
+	}
+	fd := atomWrapperDecls[callee]
+	if fd == nil || len(fd.Body.List) != 1 {
+		return "", false
+	}
+	rs, ok := fd.Body.List[0].(*ast.ReturnStmt)
+	if !ok || len(rs.Results) != 1 {
+		return "", false
+	}
+	inner, ok := rs.Results[0].(*ast.CallExpr)
+	if !ok || len(inner.Args) < 1 {
+		return "", false
+	}
+	// the wrapper's own package info is not at hand: recognise parsec.Atom by name
+	if sel, ok := inner.Fun.(*ast.SelectorExpr); !ok || (sel.Sel.Name != "Atom" && sel.Sel.Name != "AtomExact") {
+		return "", false
+	}
+	// which name does the wrapper pass on?
+	a0 := inner.Args[0]
+	if conv, ok := a0.(*ast.CallExpr); ok && len(conv.Args) == 1 {
+		a0 = conv.Args[0] // string(b)
+	}
+	id, ok := a0.(*ast.Ident)
+	if !ok {
+		return "", false
+	}
+	var actual ast.Expr
+	if fd.Recv != nil && len(fd.Recv.List) == 1 && len(fd.Recv.List[0].Names) == 1 && fd.Recv.List[0].Names[0].Name == id.Name {
+		actual = recvExpr
+	} else if fd.Type.Params != nil {
+		i := 0
+		for _, fl := range fd.Type.Params.List {
+			for _, n := range fl.Names {
+				if n.Name == id.Name && i < len(call.Args) {
+					actual = call.Args[i]
+				}
+				i++
+			}
+		}
+	}
+	if actual == nil {
+		return "", false
+	}
+	if tv, ok := info.Types[actual]; ok && tv.Value != nil && tv.Value.Kind() == constant.String {
+		return constant.StringVal(tv.Value), true
+	}
+	return "", false
+}
+
 // atomsOf lists, in source order, the literals of the parsec.Atom calls under n.
 func atomsOf(info *types.Info, n ast.Node) []string {
 	var out []string
 	ast.Inspect(n, func(m ast.Node) bool {
-		if call, ok := m.(*ast.CallExpr); ok && isParsecCall(info, call, "Atom") && len(call.Args) >= 1 {
-			out = append(out, stringLit(info, call.Args[0]))
+		if call, ok := m.(*ast.CallExpr); ok {
+			if lit, isAtom := atomLit(info, call); isAtom {
+				out = append(out, lit)
+				return false
+			}
 		}
 		return true
 	})
@@ -353,8 +444,9 @@ func productionsOf(p *packages.Package) []production {
 					switch x := e.(type) {
 					case *ast.CallExpr:
 						switch {
-						case isParsecCall(info, x, "Atom") && len(x.Args) >= 1:
-							pr.Atoms = append(pr.Atoms, stringLit(info, x.Args[0]))
+						case isAtomCall(info, x):
+							lit, _ := atomLit(info, x)
+							pr.Atoms = append(pr.Atoms, lit)
 							pr.Opt = append(pr.Opt, opt)
 						case isParsecCall(info, x, "Kleene") || isParsecCall(info, x, "Many") || isParsecCall(info, x, "Maybe"):
 							for _, a := range x.Args[1:] {
@@ -374,7 +466,7 @@ func productionsOf(p *packages.Package) []production {
 					}
 				}
 				for _, a := range call.Args[1:] {
-					if ac, ok := a.(*ast.CallExpr); !ok || !isParsecCall(info, ac, "Atom") {
+					if ac, ok := a.(*ast.CallExpr); !ok || !isAtomCall(info, ac) {
 						pr.AllAtom = false
 					}
 					walk(a, false, 0)
@@ -579,8 +671,8 @@ func choiceAmbiguities(p *packages.Package) (out []choiceAmbiguity, nChoices int
 	}
 	classify := func(e ast.Expr) string {
 		if call, ok := e.(*ast.CallExpr); ok {
-			if (isParsecCall(info, call, "Atom") || isParsecCall(info, call, "AtomExact")) && len(call.Args) >= 1 {
-				return "atom:" + stringLit(info, call.Args[0])
+			if lit, isAtom := atomLit(info, call); isAtom {
+				return "atom:" + lit
 			}
 			if isParsecCall(info, call, "Token") || isParsecCall(info, call, "TokenExact") || isParsecCall(info, call, "Ident") {
 				return "tok:" + types.ExprString(e)
@@ -681,4 +773,9 @@ func choiceAmbiguities(p *packages.Package) (out []choiceAmbiguity, nChoices int
 		}
 	}
 	return out, nChoices
+}
+
+func isAtomCall(info *types.Info, call *ast.CallExpr) bool {
+	_, ok := atomLit(info, call)
+	return ok
 }
